@@ -93,9 +93,9 @@ Proof.
   subst nb. rewrite firstn_map.
   rewrite (bodies_values_render c o chunks Hc W).
   2:{ intros ch Hin. apply In_firstn_In in Hin. split; auto. rewrite Forall_forall in Hne. auto. }
-  destruct (len (firstn j (map _ chunks)) =? pw) eqn:E.
+  match goal with |- context [?x =? pw] => destruct (x =? pw) eqn:E end.
   - apply N.eqb_eq in E. rewrite <- Hl in E. unfold len in E. apply Nat2N.inj in E.
-    rewrite firstn_length, map_length in E.
+    rewrite !map_length, firstn_length in E.
     rewrite firstn_all2 by lia. rewrite Hc. apply list_eqb_refl, bytes_eqb_refl.
   - rewrite <- Hc. rewrite <- (firstn_skipn j chunks) at 2. rewrite concat_app. apply is_prefix_app.
 Qed.
@@ -150,20 +150,18 @@ Proof.
                     (pend ++ [(o, fst (snd (awrite (c_env c) (c_max c) o)))]) = true).
     { apply (IH w' (fs ++ fst (awrite (c_env c) (c_max c) o)) _ (nbs ++ [fst (awrite (c_env c) (c_max c) o)])); auto.
       - destruct o; [exact R|exact R|destruct Hw].
-      - congruence.
-      - congruence.
       - rewrite concat_app, Hfs. cbn [concat]. rewrite app_nil_r. reflexivity.
       - apply Forall2_app; auto. constructor; [|constructor]. split; cbn [fst snd].
         + rewrite A. unfold len. rewrite map_length. symmetry. exact D.
         + exists (achunks (c_env c) (c_max c) o). auto. }
     destruct o; [| |destruct Hw]; cbn [astep snd check]; rewrite Hc, IH'; reflexivity. }
   destruct o as [k name labels v ts | k name labels vs rate | k]; [apply Hwrite; exact I|apply Hwrite; exact I|].
-  clear Hwrite. cbn [astep fst snd] in R |- *. cbn [check].
+  clear Hwrite. subst fs. cbn [astep fst snd] in R |- *. cbn [check].
   pose proof H as (_ & _ & _ & Hall).
-  rewrite (sum_pending c pend nbs Hg), <- Hfs, N.eqb_refl. cbn [andb].
+  rewrite (sum_pending c pend nbs Hg), N.eqb_refl. cbn [andb].
   rewrite firstn_map, (unframe_all_frames c) by (auto; rewrite Forall_forall in *; intros x Hx; rewrite <- M; apply Hall; apply In_firstn_In in Hx; exact Hx).
-  rewrite Hfs at 3. rewrite (distribute_good c pend nbs _ Hg).
-  rewrite (IH w' [] [] []); auto; try congruence; [|constructor].
+  rewrite (distribute_good c pend nbs _ Hg).
+  rewrite (IH w' [] [] []); auto; [|constructor].
   rewrite !andb_true_r. apply N.eqb_eq. unfold len. rewrite map_length, firstn_length.
   unfold drain_count. destruct k as [k|]; lia.
 Qed.
